@@ -384,3 +384,87 @@ def run_cases(seed, lo, hi, extra):
             st.failures.append({"prop": prop, "sig": sig, "detail": detail, **desc})
         c.pop("rd", None)
     return st
+
+
+# --------------------------------------------------------------------------
+# namespaced documents: implementation-level oracles only (the model is namespace-free)
+
+import re as _re
+
+_PREFIX_RE = _re.compile(r"(?<![\w.-])([A-Za-z_][\w.-]*):(?=[A-Za-z_*])")
+
+
+def run_ns_cases(seed, lo, hi, extra):
+    """Documents of the C01 domain with namespaces (every prefix declared once on the root,
+    one prefix per URI).  Real differ / patcher / formatters only; oracles of C01 C04 C18 C02."""
+    from xmldiff import main, formatting, patch
+
+    tier, stream = extra
+    st = core.Stats()
+    for idx in range(lo, hi):
+        r = core.rng_for(seed, "ns", idx)
+        L, R = gen.ns_pair(r, 12 if tier == "quick" else r.choice([8, 12, 25]))
+        opts = gen.rand_opts(r)
+        st.evaluations += 1
+        st.units["NSoracle"] = st.units.get("NSoracle", 0) + 1
+        le, re_ = xt.to_lxml(L), xt.to_lxml(R)
+        desc = {"stream": "ns", "idx": idx, "left": etree.tostring(le, encoding="unicode"), "right": etree.tostring(re_, encoding="unicode"), "options": repr(opts)}
+        try:
+            script = main.diff_trees(le, re_, diff_options=opts)
+        except Exception as e:  # noqa
+            st.failures.append({"prop": "C01", "sig": f"C01/diff-raises/{real.exc_sig(e)}", **desc})
+            continue
+        desc["script"] = xt.show_script(script)[:30]
+        if nontrivial_script(script):
+            st.nontriv((desc["left"], desc["right"], desc["options"]))
+        # C01
+        try:
+            out = main.patch_tree(script, le)
+            d = xt.doc_eq(xt.from_lxml(out), R)
+            if d:
+                st.failures.append({"prop": "C01", "sig": "C01/patched-differs-from-right", "detail": d, **desc})
+        except Exception as e:  # noqa
+            st.failures.append({"prop": "C01", "sig": f"C01/patch-raises/{real.exc_sig(e)}", **desc})
+        # C04: unique resolution (counting evaluator = all xpath hits) and prefix binding
+        try:
+            import copy as _copy
+
+            tree = _copy.deepcopy(le)
+            bound = {k: v for k, v in tree.nsmap.items() if k is not None}
+            p = patch.Patcher()
+            p._nsmap = dict(bound)
+            for k, a in enumerate(script):
+                an = type(a).__name__
+                if an == "InsertNamespace":
+                    bound[a.prefix] = a.uri
+                for f in ("node", "target"):
+                    path = getattr(a, f, None)
+                    if path is None:
+                        continue
+                    for pre in _PREFIX_RE.findall(path):
+                        if pre not in bound:
+                            st.failures.append({"prop": "C04", "sig": "C04/prefix-not-bound", "prefix": pre, "action_index": k, **desc})
+                    hits = tree.xpath(path, namespaces={k2: v for k2, v in bound.items() if k2})
+                    if len(hits) != 1:
+                        st.failures.append({"prop": "C04", "sig": f"C04/path-selects-{len(hits)}-nodes/{an}", "action_index": k, **desc})
+                    if not path.endswith("]"):
+                        st.failures.append({"prop": "C04", "sig": "C04/last-step-without-index", "action_index": k, **desc})
+                p.handle_action(a, tree)
+        except Exception as e:  # noqa
+            st.failures.append({"prop": "C04", "sig": f"C04/replay-raises/{type(e).__name__}", **desc})
+        # C18 / C02 through the formatters
+        try:
+            out = main.diff_trees(xt.to_lxml(L), xt.to_lxml(R), diff_options=opts, formatter=formatting.XmlDiffFormatter())
+            n = sum(1 for line in out.split("\n") if line.startswith("["))
+            if n < len(script):
+                st.failures.append({"prop": "C18", "sig": "C18/fewer-entries-than-actions", **desc})
+        except Exception as e:  # noqa
+            st.failures.append({"prop": "C18", "sig": f"C18/raises/{real.exc_sig(e)}", **desc})
+        try:
+            text = formatting.DiffFormatter().format(script, None)
+            back = list(patch.DiffParser().parse(text))
+            if back != list(script):
+                st.failures.append({"prop": "C02", "sig": "C02/parse-format-differs", **desc})
+        except Exception as e:  # noqa
+            st.failures.append({"prop": "C02", "sig": f"C02/format-or-parse-raises/{real.exc_sig(e)}", **desc})
+    return st
